@@ -49,6 +49,7 @@ type shared struct {
 	stopped   bool
 	paths     int64
 	truncated bool
+	recovers  map[*ssa.Function]bool
 }
 
 // pendingCall lets an intrinsic ask for an interpreted function to be run after it returns
@@ -329,11 +330,150 @@ func (ex *Exec) selectTree(idx *smt.Term, at func(i int) *smt.Term, lo, hi int) 
 
 // ---- findings / panics ----
 
-type goPanicSignal struct{ msg string }
+type goPanicSignal struct {
+	msg string
+	val Value // value handed to panic(); nil for runtime panics
+}
 
-func (ex *Exec) goPanic(st *State, msg string) { panic(goPanicSignal{msg}) }
+func (ex *Exec) goPanic(st *State, msg string) { panic(goPanicSignal{msg: msg}) }
+
+// callsRecover: fn contains a direct call of the recover builtin (cached).
+func (ex *Exec) callsRecover(fn *ssa.Function) bool {
+	ex.sh.mu.Lock()
+	defer ex.sh.mu.Unlock()
+	if ex.sh.recovers == nil {
+		ex.sh.recovers = map[*ssa.Function]bool{}
+	}
+	if v, ok := ex.sh.recovers[fn]; ok {
+		return v
+	}
+	res := false
+	for _, b := range fn.Blocks {
+		for _, in := range b.Instrs {
+			if c, ok := in.(*ssa.Call); ok {
+				if bi, ok := c.Call.Value.(*ssa.Builtin); ok && bi.Name() == "recover" {
+					res = true
+				}
+			}
+		}
+	}
+	ex.sh.recovers[fn] = res
+	return res
+}
+
+// recoverable: some frame of the running goroutine has a pending deferred function that calls recover.
+// Only then is a panic unwound through the deferred calls (Go semantics); otherwise it is reported where it is raised.
+func (ex *Exec) recoverable(st *State) bool {
+	if len(st.Gs) == 0 {
+		return false
+	}
+	g := st.g()
+	if g.Paniced {
+		return false // a panic while unwinding another one: reported
+	}
+	for _, fr := range g.Frames {
+		for _, d := range fr.Defers {
+			if c, ok := d.Fn.(Closure); ok && c.Fn != nil && ex.callsRecover(c.Fn) {
+				return true
+			}
+		}
+	}
+	return false
+}
+
+// beginUnwind puts the running goroutine into panicking mode; the run loop then runs deferred calls frame by frame.
+func (ex *Exec) beginUnwind(st *State, msg string, val Value) {
+	g := st.g()
+	g.Paniced = true
+	g.Recovered = false
+	g.PanicMsg = msg
+	g.PanicWhere = ex.where(st)
+	if val == nil {
+		val = Iface{T: types.Typ[types.String], V: ex.strConst("runtime error: " + msg)}
+	}
+	g.Panic = val
+	g.UnwindLevel = len(g.Frames)
+	g.Status = GRunnable
+}
+
+// unwindStep performs one step of panicking / post-recover processing of the frame at UnwindLevel.
+// false => the path ended (uncaught panic).
+func (ex *Exec) unwindStep(st *State) bool {
+	g := st.g()
+	fr := g.Frames[len(g.Frames)-1]
+	if n := len(fr.Defers); n > 0 {
+		d := fr.Defers[n-1]
+		switch f := d.Fn.(type) {
+		case Closure:
+			if intr, ok := ex.Intr[f.Fn.String()]; ok {
+				ex.curSite = d.Site
+				if _, done := intr(ex, st, d.Args, nil); done {
+					fr.Defers = fr.Defers[:n-1]
+				}
+				return true
+			}
+			fr.Defers = fr.Defers[:n-1]
+			ex.pushFrame(st, f.Fn, d.Args, f.Env, nil)
+			st.frame().IsDefer = true
+		case BuiltinFn:
+			fr.Defers = fr.Defers[:n-1]
+			ex.builtin(st, f.B.Name(), d.Args, nil)
+		}
+		return true
+	}
+	if g.Recovered {
+		// all deferred calls ran: the function returns to its caller through its recover block
+		g.Recovered = false
+		g.UnwindLevel = 0
+		if rb := fr.Fn.Recover; rb != nil {
+			fr.Prev = fr.Block
+			fr.Block = rb
+			fr.IP = 0
+			return true
+		}
+		var res Value
+		rs := fr.Fn.Signature.Results()
+		switch rs.Len() {
+		case 0:
+		case 1:
+			res = ex.zero(rs.At(0).Type())
+		default:
+			res = ex.zero(rs)
+		}
+		ex.doReturn(st, res)
+		return true
+	}
+	// no deferred call left and still panicking: pop the frame
+	g.Frames = g.Frames[:len(g.Frames)-1]
+	g.UnwindLevel = len(g.Frames)
+	if len(g.Frames) == 0 {
+		g.Paniced = false
+		ex.reportAt(st, "panic", g.PanicMsg, nil, g.PanicWhere)
+		ex.endPath(st, "panic: "+g.PanicMsg)
+		return false
+	}
+	return true
+}
 
 func (ex *Exec) report(st *State, kind, msg string, extra *smt.Term) {
+	if kind == "panic" && extra != nil && ex.recoverable(st) {
+		// a deferred function up the stack may recover: the panicking side becomes a path of its own
+		ex.Obligations++
+		st.Nontriv = true
+		if r, m := ex.checkWithModel(st, extra); r != smt.Unsat {
+			o := st.fork()
+			o.PC = append(o.PC, extra)
+			o.Model = m
+			ex.beginUnwind(o, msg, nil)
+			ex.push(o)
+			ex.Forks++
+		}
+		return
+	}
+	ex.reportAt(st, kind, msg, extra, "")
+}
+
+func (ex *Exec) reportAt(st *State, kind, msg string, extra *smt.Term, at string) {
 	// extra: condition under which the finding occurs (nil => unconditional on this path)
 	C := ex.C
 	cond := extra
@@ -345,7 +485,10 @@ func (ex *Exec) report(st *State, kind, msg string, extra *smt.Term) {
 		ex.Obligations++
 		st.Nontriv = true
 	}
-	where := ex.where(st)
+	where := at
+	if where == "" {
+		where = ex.where(st)
+	}
 	// listed known findings that apply to this obligation
 	full := kind + ": " + msg + " @ " + where
 	type kn struct {
@@ -686,6 +829,13 @@ func (ex *Exec) endPath(st *State, reason string) {
 }
 
 func (ex *Exec) runPath(st *State) {
+	for ex.runPathOnce(st) {
+	}
+}
+
+// runPathOnce runs st until its path ends; true => a recoverable Go panic was raised and the loop is to be re-entered
+// (the goroutine is now unwinding).
+func (ex *Exec) runPathOnce(st *State) (again bool) {
 	defer func() {
 		if r := recover(); r != nil {
 			switch e := r.(type) {
@@ -696,6 +846,11 @@ func (ex *Exec) runPath(st *State) {
 				ex.endPath(st, e.reason)
 			case goPanicSignal:
 				// a Go runtime panic that is certain on this path
+				if ex.recoverable(st) {
+					ex.beginUnwind(st, e.msg, e.val)
+					again = true
+					return
+				}
 				ex.report(st, "panic", e.msg, nil)
 				ex.endPath(st, "panic: "+e.msg)
 			default:
@@ -721,12 +876,19 @@ func (ex *Exec) runPath(st *State) {
 		if st.Steps > ex.MaxSteps {
 			ex.report(st, "budget", "instruction budget exceeded", nil)
 			ex.endPath(st, "budget")
-			return
+			return false
 		}
 		g := st.g()
+		if (g.Paniced || g.Recovered) && g.Status == GRunnable && len(g.Frames) > 0 && len(g.Frames) == g.UnwindLevel {
+			st.Steps++
+			if !ex.unwindStep(st) {
+				return false
+			}
+			continue
+		}
 		if g.Status != GRunnable || len(g.Frames) == 0 {
 			if !ex.schedule(st) {
-				return
+				return false
 			}
 			continue
 		}
@@ -738,12 +900,12 @@ func (ex *Exec) runPath(st *State) {
 			fmt.Fprintf(os.Stderr, "steps=%d g=%d at %s trace-tail=%v\n", st.Steps, st.Cur, ex.where(st), tail(st.SchedTrace, 6))
 		}
 		if !ex.step(st, fr, in) {
-			return
+			return false
 		}
 		if ex.yieldNow {
 			ex.yieldNow = false
 			if !ex.schedule(st) {
-				return
+				return false
 			}
 		}
 	}
@@ -1104,7 +1266,7 @@ func (ex *Exec) step(st *State, fr *Frame, in ssa.Instruction) bool {
 				}
 			}
 		}
-		ex.goPanic(st, msg)
+		panic(goPanicSignal{msg: msg, val: v})
 	case *ssa.DebugRef:
 	default:
 		ex.unsupported(st, fmt.Sprintf("instruction %T", in))
